@@ -11,6 +11,8 @@ THEOREMS = ['C09_empty', 'C09_step_inv', 'C09_step_primitive', 'C09_history_inv'
             'C09_substitute_example', 'C09_example3']
 THEOREMS += ['C09_prims_source_is_model', 'C09_ceq_respected', 'C09_prims_source_step', 'C09_prims_source_history',
              'C09_prims_source_example']
+# eliminate_1to1_forks translated from the source (translate/gen_circuit_elim.py) keeps the invariant (via C10_eliminate_source_is_model)
+THEOREMS += ['C09_eliminate_source']
 
 LIB_NETLIST = '''module m (a, b, c, y, z); input a, b, c; output y, z;
   %s u1 (%s);
@@ -110,7 +112,9 @@ def run(ck):
     from vcheck import gen_all, core
     # translation (tie T): Gen/CircuitPrimsSrc.v is regenerated from the current text of circuit.py; C09_prims_source_is_model then
     # re-proves that the translated primitives are the hand-written primitives of Model/Circuit.v
-    res = gen_all.generate(['CircuitPrimsSrc'])
+    res = gen_all.generate(['CircuitPrimsSrc', 'CircuitElimSrc'])
+    ck.obligation('translate circuit.py Circuit.eliminate_1to1_forks -> Gen/CircuitElimSrc.v (translate/gen_circuit_elim.py; '
+                  'C09_eliminate_source is stated about it)', res['CircuitElimSrc'] is None, 'translation', res['CircuitElimSrc'] or '')
     ck.obligation('translate circuit.py primitives -> Gen/CircuitPrimsSrc.v', res['CircuitPrimsSrc'] is None, 'translation',
                   res['CircuitPrimsSrc'] or '')
     ck.trust('translator translate/gen_circuit_prims.py (fail-closed, type-directed Python-ast translation of GrowingList.__setitem__ / '
